@@ -5,7 +5,7 @@ import common
 
 PROPS = "RotoV.Props.C02"
 MODULES = ["RotoV.Lemmas.Layout", "RotoV.Lemmas.LayoutPath", "RotoV.Lemmas.LayoutClone", "RotoV.Lemmas.LayoutEq", "RotoV.Lemmas.LayoutTotal", "RotoV.Lemmas.LayoutDrop", "RotoV.Lemmas.LayoutRead", "RotoV.Lemmas.LayoutWrite", "RotoV.Lemmas.LayoutListEq", "RotoV.Model.LayoutListEq", "RotoV.Model.LayoutListStd", "RotoV.Model.LayoutMem", "RotoV.Model.Layout", "RotoV.Model.LayoutOps",
-           "RotoV.Model.LayoutStd", "RotoV.Model.LayoutKind", "RotoV.Model.ValueSpec", "RotoV.Model.ValueCtor", "RotoV.Lemmas.ValueCtor"]
+           "RotoV.Model.LayoutStd", "RotoV.Model.LayoutKind", "RotoV.Model.ValueSpec", "RotoV.Model.ValueCtor", "RotoV.Lemmas.ValueCtor", "RotoV.Model.ValueMatch", "RotoV.Lemmas.ValueMatch"]
 
 
 def search(ctx):
@@ -17,7 +17,7 @@ def search(ctx):
 
 
 def run(ctx):
-    ctx.extract(["layout", "layoutloops", "layoutdecide", "layoutlisteq"])
+    ctx.extract(["layout", "layoutloops", "layoutdecide", "layoutlisteq", "matchexaminee"])
     ctx.prove(PROPS, extra_modules=MODULES)
     if ctx.build_harness("c02"):
         rep = ctx.harness("c02", ["run", ctx.seed, ctx.tier], timeout=3000)
